@@ -204,8 +204,16 @@ func ruleC15Codec(c *Ctx) {
 					continue
 				}
 			}
+			// ... or wrap it: the return sits behind the failure edge of one of the reads
+			var failed []func(*ssa.BasicBlock, int) bool
+			for _, rd := range AnyCallsTo(rfn, "encoding/binary.Read", "io.ReadFull") {
+				if ev := errOfCall(rd); ev != nil {
+					_, nonNil := nilTestEdges(rfn, ev)
+					failed = append(failed, nonNil)
+				}
+			}
 			c.Guard(rule, rfn, []ssa.Instruction{r}, "refuse a frame ("+R.V(r.Results[ei])+")", nil,
-				atom("foreign magic/version", "+var(rpc.Message).MagicVersion -6915 !=0"))
+				Need{Desc: "foreign magic/version, or a read of the frame failed", Atoms: []string{"+var(rpc.Message).MagicVersion -6915 !=0"}, Edge: orEdges(failed...)})
 		}
 	}
 	// locks
